@@ -30,6 +30,14 @@ package samlsp
 //@ ensures[C16] scope: sessionClaims(result).SAMLSession && sessionClaims(result).Audience == c.Audience && sessionClaims(result).Issuer == c.Issuer
 //@ ensures[C16] subject: assertion.Subject != nil && assertion.Subject.NameID != nil ==> sessionClaims(result).Subject == assertion.Subject.NameID.Value
 
+//@ -- a session token is signed with the codec's own method and key, over exactly the given claims
+//@ contract (JWTSessionCodec).Encode
+//@ requires[cfg] cfg: c.SigningMethod != nil && c.Key != nil
+//@ assert@call[C16] NewWithClaims #1 (m jwt.SigningMethod, cl jwt.Claims) uses claims JWTSessionClaims own_method_given_claims:
+//@    m == c.SigningMethod && isSessionClaims(s) && sameClaims(sessionClaimsOf(cl), claims) && sameClaims(claims, sessionClaims(s))
+//@ go func sameClaims(a, b JWTSessionClaims) bool
+//@ assert@call[C16] SignedString #1 (tok *jwt.Token, key interface{}) own_key: key == c.Key
+//@ go func sessionClaimsOf(c jwt.Claims) JWTSessionClaims { x, _ := c.(JWTSessionClaims); return x }
 //@ contract (CookieSessionProvider).GetSession
 //@ requires[cfg] r: r != nil && c.Codec != nil
 //@ -- a session comes only from decoding the cookie with the configured name
